@@ -148,6 +148,15 @@ def run(ctx) -> None:
                                "ops": ops, "kind": kind})
                 ctx.count(f"history_{kind}")
                 ctx.count(f"n{n}")
+    if not ctx.out_of_time(-6.0):
+        # beyond 8 players coalition ids leave the 8-bit range: one case per shard with each computer
+        nb = rng.choice([8, 9])
+        vb, eb = gen.sa_game(rng, nb, rng.choice(["int", "int_neg", "dyadic8"]))
+        Kb = gen.random_knowledge_set(rng, nb)
+        for comp in (sut.SA_COMPUTERS if nb == 8 or not quick else ["superadditive_cached"]):
+            run_case(ctx, {"n": nb, "family": "big_n", "values": vb, "exact": eb, "computer": comp, "K": Kb,
+                           "ops": [["set_known", Kb]], "kind": "fresh"})
+            ctx.count(f"n{nb}")
     # 7 players with the cached computer, a few, also in quick
     if quick and not ctx.out_of_time(-3.0):
         values, exact = gen.sa_game(rng, 7, "int")
